@@ -29,7 +29,7 @@ VARIABLES blobs, ingest, idx, trunc, tmp,     \* disk (trunc: index.json is trun
           pre, post,                   \* model state before / after the operation in progress
           nops, crashed
 
-cvars == <<g, content, tags, indexed, stray, blobs, ingest, idx, trunc, tmp, steps, pre, post, nops, crashed>>
+cvars == <<g, content, tags, indexed, stray, tagann, blobs, ingest, idx, trunc, tmp, steps, pre, post, nops, crashed>>
 
 Asc(S) ==
   LET RECURSIVE B(_, _)
@@ -45,7 +45,7 @@ WellFormed(u) == \A k \in 1..N : u.subj[k] = 0 \/ (u.subj[k] \in Rng(u.all[k]) /
 
 CInit ==
   /\ g \in {u \in Universes : WellFormed(u)}
-  /\ content = {} /\ indexed = {} /\ stray = {} /\ tags = [r \in {"t1", "t2"} |-> 0]
+  /\ content = {} /\ indexed = {} /\ stray = {} /\ tags = [r \in {"t1", "t2"} |-> 0] /\ tagann = [r \in {"t1", "t2"} |-> ""]
   /\ blobs = {} /\ ingest = {} /\ idx = {} /\ trunc = FALSE /\ tmp = {}
   /\ steps = <<>> /\ pre = Snap({}, [r \in {"t1", "t2"} |-> 0], {}) /\ post = pre
   /\ nops = 0 /\ crashed = FALSE
@@ -59,7 +59,7 @@ Begin(r) ==
      /\ steps' = StepsOf(r, x)
      /\ pre' = Cur /\ post' = Snap(x.content, x.tags, x.indexed)
   /\ nops' = nops + 1
-  /\ UNCHANGED <<g, content, tags, indexed, stray, blobs, ingest, idx, trunc, tmp, crashed>>
+  /\ UNCHANGED <<g, content, tags, indexed, stray, tagann, blobs, ingest, idx, trunc, tmp, crashed>>
 
 \* one system call takes effect
 DoStep ==
@@ -75,13 +75,13 @@ DoStep ==
   /\ IF Len(steps) = 1
      THEN content' = post.content /\ tags' = post.tags /\ indexed' = post.indexed
      ELSE UNCHANGED <<content, tags, indexed>>
-  /\ UNCHANGED <<g, stray, pre, post, nops, crashed>>
+  /\ UNCHANGED <<g, stray, tagann, pre, post, nops, crashed>>
 
 \* the process dies before the next system call; memory is lost
 Crash ==
   /\ ~crashed /\ steps # <<>>
   /\ crashed' = TRUE
-  /\ UNCHANGED <<g, content, tags, indexed, stray, blobs, ingest, idx, trunc, tmp, steps, pre, post, nops>>
+  /\ UNCHANGED <<g, content, tags, indexed, stray, tagann, blobs, ingest, idx, trunc, tmp, steps, pre, post, nops>>
 
 CNext == (\E n \in 1..N, ref \in {"t1", "t2"}, op \in {"push", "tag", "untag", "delete", "gc"} :
             Begin([op |-> op, n |-> n, ref |-> ref]))
